@@ -624,100 +624,53 @@ def _excl_known(lang):
     return lang
 
 
+def safe_struct():
+    """Lexer/parser-side language of bare value texts that come back as the same string:
+    one scanner identifier (plain or NAME<qual>), a variable, ID (op ID)+ over the operator characters, or a colon path
+    ID (':' ID)+ (parse_value re-joins both forms)."""
+    ops = rx.chars(lm.unicode_ops())
+    seg = lm.scan_ident()
+    return rx.alt(
+        lm.scan_ident(),
+        lm.scan_annot(),
+        rx.fullmatch_lang(lm.pattern_of("VARIABLE")),
+        rx.cat(seg, rx.plus(rx.cat(ops, seg))),
+        rx.cat(seg, rx.plus(rx.cat(rx.lit(":"), seg))),
+    )
+
+
 def build_bare():
+    """BARE is derived from the live source of needs_quotes (vf/nqmodel.py); SAFE from the lexer tables."""
+    from vf import nqmodel
+
     qs = []
     ops = lm.unicode_ops()
+    bare = nqmodel.bare_language()
+    dollar = rx.cat(rx.lit("$"), rx.SIGMA_STAR)
+    bare_var = rx.inter(bare, dollar)
+    bare_id = rx.minus(bare, dollar)
+    sep = rx.chars(ops + ":")
+    fol = lm.follow()
     pm_all = lm.pm_union()
-    pm_before_var = lm.pm_union(only_before="VARIABLE")
-    var_pat = rx.prefix_lang(lm.pattern_of("VARIABLE"))
-    wit = [
-        ("reserved-prefix", ["true.x"], "value 'true.x' is emitted bare and re-read as BOOLEAN + '.x'", lambda a: _replay_words(a)[0]),
-        ("reserved-prefix", ["vs-a"], "value 'vs-a' is emitted bare and re-read as the tension operator", lambda a: _replay_words(a)[0]),
-        ("reserved-prefix", ["A→null"], "expression segment 'null' is emitted bare", lambda a: _replay_words(a)[0]),
-    ]
-    wit2 = [
-        ("annotation-comma-empty", ["A<b,c>"], "annotation 'A<b,c>' is emitted bare but the lexer rejects ',' in a qualifier", lambda a: _replay_words(a)[0]),
-        ("annotation-comma-empty", ["A<>"], "annotation 'A<>' is emitted bare but the lexer rejects the empty qualifier", lambda a: _replay_words(a)[0]),
-    ]
-
-    # --- identifier arm: one IDENTIFIER token covering the whole text ------------------------------------
-    ident = _excl_known(_bare_arm("ident"))
-    qs.append({"name": "ident/inhabited", "langs": [ident], "expect": "sat"})
-    qs.append(
-        {
-            "name": "ident/no-pattern-fires-first",
-            "langs": [rx.inter(rx.cat(ident, lm.follow()), pm_all)],
-            "replay": _replay_words_strip_follow,
-            "witnesses": wit,
-        }
-    )
-    qs.append({"name": "ident/scanner-consumes-all", "langs": [rx.minus(ident, lm.scan_ident())], "replay": _replay_words})
+    # a token pattern fires at the start of the value or of a later segment (right after an operator char or ':')
+    # segment starts inside the value only (the text after the value - newline, comma, bracket, comment - is not ours)
+    seg_start = rx.alt(rx.EPS, rx.cat(rx.star(rx.not_chars("\n,] ")), sep))
+    pats = [(i, p, t, lm.pm(p, over_approx=True)) for i, p, t in lm.patterns() if t != "GRAMMAR_SENTINEL"]
+    qs.append({"name": "bare/inhabited", "langs": [bare_id], "expect": "sat"})
+    twosep = rx.cat(rx.SIGMA_STAR, sep, sep, rx.SIGMA_STAR)
+    for bi, (label, branch) in enumerate(nqmodel.bare_branches()):
+        b_id = rx.minus(branch, dollar)
+        tag = f"branch{bi}[{label}]"
+        qs.append({"name": f"bare/{tag}/structure-the-reader-rejoins", "langs": [rx.minus(b_id, safe_struct())], "replay": _replay_words, "timeout_ms": 120000})
+        for i, ptxt, tname, plang in pats:
+            qs.append({"name": f"bare/{tag}/pattern#{i}({tname})-never-fires-at-a-segment-start", "langs": [rx.inter(rx.cat(b_id, fol), rx.cat(seg_start, plang))], "replay": _replay_words_strip_follow, "timeout_ms": 60000})
     # scanner must stop at the end of the value: the next char is not an identifier body char, '<', '{' or '%'
-    qs.append(
-        {
-            "name": "follow/stops-scanner",
-            "langs": [rx.inter(lm.follow(ops), rx.cat(rx.alt(lm.ID_BODY(), rx.chars("<{%")), rx.SIGMA_STAR))],
-            "replay": lambda w: (False, "model-only query"),
-        }
-    )
-    # --- variable arm ---------------------------------------------------------------------------------------
-    var = _bare_arm("var")
-    qs.append({"name": "var/inhabited", "langs": [var], "expect": "sat"})
-    qs.append(
-        {
-            "name": "var/no-earlier-pattern",
-            "langs": [rx.inter(rx.cat(var, lm.follow(ops)), pm_before_var)],
-            "replay": _replay_words_strip_follow,
-        }
-    )
-    qs.append({"name": "var/pattern-matches-whole", "langs": [rx.minus(var, rx.fullmatch_lang(lm.pattern_of("VARIABLE")))], "replay": _replay_words})
-    qs.append(
-        {
-            "name": "var/match-cannot-extend",
-            "langs": [rx.inter(lm.follow(ops), rx.cat(rx.chars("ABCDEFGHIJKLMNOPQRSTUVWXYZabcdefghijklmnopqrstuvwxyz0123456789_:"), rx.SIGMA_STAR))],
-            "replay": lambda w: (False, "model-only query"),
-        }
-    )
-    # --- annotation arm ---------------------------------------------------------------------------------------
-    annot = _excl_known(_bare_arm("annot"))
-    qs.append({"name": "annot/inhabited", "langs": [annot], "expect": "sat"})
-    qs.append(
-        {
-            "name": "annot/no-pattern-fires-first",
-            "langs": [rx.inter(rx.cat(annot, lm.follow()), pm_all)],
-            "replay": _replay_words_strip_follow,
-        }
-    )
-    qs.append(
-        {
-            "name": "annot/scanner-consumes-all",
-            "langs": [rx.minus(annot, rx.alt(lm.scan_annot(), lm.scan_ident()))],
-            "replay": _replay_words,
-            "witnesses": wit2,
-        }
-    )
-    # --- expression arm: every segment lexes as an identifier, every operator char as its operator token ----
-    expr = _excl_known(_bare_arm("expr"))
-    qs.append({"name": "expr/inhabited", "langs": [expr], "expect": "sat"})
-    seg = rx.cat(lm.scan_ident())
-    opre = rx.chars(ops)
-    qs.append(
-        {
-            "name": "expr/segments-are-scanner-identifiers",
-            "langs": [rx.minus(expr, rx.cat(seg, rx.plus(rx.cat(opre, seg))))],
-            "replay": _replay_words,
-        }
-    )
-    # at a segment start (after an operator char = non-word left context) no token pattern may fire:
-    # expr = S0 (op Si)+ ; suffixes starting at each segment start are  Si (op Sj)* follow
-    ident_all = _excl_known(_bare_arm("ident"))
-    qs.append(
-        {
-            "name": "expr/no-pattern-fires-at-segment-start",
-            "langs": [rx.inter(rx.cat(ident_all, lm.follow(ops)), pm_all)],
-            "replay": _replay_words_strip_follow,
-        }
-    )
+    qs.append({"name": "follow/stops-scanner", "langs": [rx.inter(lm.follow(), rx.cat(rx.alt(lm.ID_BODY(), rx.chars("<{%")), rx.SIGMA_STAR))], "replay": lambda w: (False, "model-only query")})
+    # variables
+    qs.append({"name": "var/inhabited", "langs": [bare_var], "expect": "sat"})
+    qs.append({"name": "var/pattern-matches-whole", "langs": [rx.minus(bare_var, rx.fullmatch_lang(lm.pattern_of("VARIABLE")))], "replay": _replay_words})
+    qs.append({"name": "var/no-earlier-pattern", "langs": [rx.inter(rx.cat(bare_var, fol), lm.pm_union(only_before="VARIABLE"))], "replay": _replay_words_strip_follow})
+    qs.append({"name": "var/match-cannot-extend", "langs": [rx.inter(fol, rx.cat(rx.chars("ABCDEFGHIJKLMNOPQRSTUVWXYZabcdefghijklmnopqrstuvwxyz0123456789_:"), rx.SIGMA_STAR))], "replay": lambda w: (False, "model-only query")})
     # every operator char of the emitter's table is matched by some token pattern as a single-character token
     fulls = []
     for i, p, t in lm.patterns():
@@ -725,14 +678,33 @@ def build_bare():
             fulls.append(rx.fullmatch_lang(p))
         except rx.Unsupported:
             pass
-    qs.append(
-        {
-            "name": "expr/every-operator-char-has-a-token-pattern",
-            "langs": [rx.minus(rx.chars(ops), rx.alt(*fulls))],
-            "replay": lambda w: _replay_words(["A" + w[0] + "B"]),
-        }
-    )
+    qs.append({"name": "expr/every-operator-char-has-a-token-pattern", "langs": [rx.minus(rx.chars(ops), rx.alt(*fulls))], "replay": lambda w: _replay_words(["A" + w[0] + "B"])})
     return qs
+
+
+def validate_bare_model():
+    """Translator validation (not the deciding step): the AST-derived BARE language agrees with the real needs_quotes on
+    every string of length <= 3 over a 13-character alphabet and on the repository's own test strings."""
+    import itertools
+
+    from octave_mcp.core import emitter as em
+    from vf import nqmodel
+
+    bare = nqmodel.bare_language()
+    alpha = ["a", "v", "s", "T", "_", ".", "-", "0", "<", ">", "$", ":", "\u2192", " ", ","]
+    words = [""] + ["".join(p) for n in (1, 2, 3) for p in itertools.product(alpha, repeat=n)]
+    words += ["true", "false", "null", "vs", "true.x", "vs-a", "A\u2192null", "a:null", "NEVER<A,B>", "FOO<>", "$1:name", "A\u2295B", "a b", "x\ny", "1.0.0", "OCTAVE"]
+    comp_ = rx.Compiler([bare] + [rx.lit(w) for w in set("".join(words))])
+    import z3
+
+    bad = []
+    for w in words:
+        sol = z3.Solver()
+        sol.add(z3.InRe(z3.StringVal(w), comp_.c(bare)))
+        in_model = str(sol.check()) == "sat"
+        if in_model == em.needs_quotes(w):
+            bad.append(w)
+    return len(words), bad
 
 
 def _fullmatches(pattern_text, s):
@@ -760,11 +732,15 @@ def _replay_words_strip_follow(words):
 
 INT_TEXT = rx.cat(rx.opt(rx.lit("-")), rx.alt(rx.lit("0"), rx.cat(rx.chars("123456789"), rx.star(rx.chars("0123456789")))))
 _D = rx.chars("0123456789")
+_NZ = rx.chars("123456789")
+_FRAC = rx.alt(rx.lit("0"), rx.cat(rx.star(_D), _NZ))  # repr never pads the fraction with trailing zeros
+_EXP_NEG = rx.alt(rx.cat(rx.lit("0"), rx.chars("56789")), rx.cat(_NZ, _D), rx.cat(_NZ, _D, _D))  # e-05 .. e-324
+_EXP_POS = rx.alt(rx.cat(rx.lit("1"), rx.chars("6789")), rx.cat(rx.chars("23456789"), _D), rx.cat(rx.chars("123"), _D, _D))  # e+16 .. e+308
 FLOAT_TEXT = rx.cat(
     rx.opt(rx.lit("-")),
     rx.alt(
-        rx.cat(rx.plus(_D), rx.lit("."), rx.plus(_D)),
-        rx.cat(_D, rx.opt(rx.cat(rx.lit("."), rx.plus(_D))), rx.lit("e"), rx.chars("+-"), _D, rx.plus(_D)),
+        rx.cat(rx.alt(rx.lit("0"), rx.cat(_NZ, rx.star(_D))), rx.lit("."), _FRAC),
+        rx.cat(_NZ, rx.opt(rx.cat(rx.lit("."), rx.cat(rx.star(_D), _NZ))), rx.lit("e"), rx.alt(rx.cat(rx.lit("-"), _EXP_NEG), rx.cat(rx.lit("+"), _EXP_POS))),
     ),
 )
 
@@ -786,8 +762,10 @@ def build_literals():
                 except ValueError:
                     continue
             if str(v) == txt[:i]:
-                return _replay_words([v])
-        return False, "no numeric prefix"
+                bad, text = _replay_words([v])
+                if bad:
+                    return True, text
+        return False, "no numeric prefix whose str() is the witness fails"
 
     for name, lang in (("int", INT_TEXT), ("float", FLOAT_TEXT)):
         qs.append({"name": f"{name}/inhabited", "langs": [lang], "expect": "sat"})
@@ -835,24 +813,30 @@ def replay_rx(ob_id, query, words):
 
 
 # ---------------------------------------------------------------------------
+def model_validation_ob():
+    def run(tier):
+        n, bad = validate_bare_model()
+        res = {"engine": "rx", "paths": 0, "queries": n, "solver_s": 0.0, "known_findings": [], "replays": [], "reach_witnessed": True, "traces_validated_against_impl": n}
+        if bad:
+            res["verdict"] = "inconclusive"
+            res["detail"] = f"AST-derived model of needs_quotes disagrees with the real function on {len(bad)} of {n} strings, e.g. {bad[:5]!r}: translator does not understand the current source"
+        else:
+            res["verdict"] = "confirmed"
+        return res
+
+    return {"id": "L3.needs_quotes-model-validation", "engine": "rx", "timeout": 600, "bound": "translator validation: all strings <= 3 chars over a 15-char alphabet + named cases, real needs_quotes vs AST-derived language", "functions": ["emitter.needs_quotes (source -> regular language, vf/nqmodel.py)"], "run": run}
+
+
 def obligations(tier):
     thorough = tier == "thorough"
     n3 = 4 if thorough else 3
     obs = [
-        xh_ob(
-            PROP,
-            "L3.bare-implies-model-language",
-            _mk_L3(n3),
-            replay=L3_replay,
-            timeout=900 if thorough else 120,
-            bound=f"all strings v, |v| <= {n3}, any character",
-            functions=["emitter.needs_quotes", "emitter.*_PATTERN"],
-        ),
+        model_validation_ob(),
         rx_ob(
             PROP,
             "RX.bare-arms-relex",
             build_bare,
-            bound="all strings of any length over U+0000..U+2FFFF in the four bare languages",
+            bound="all strings of any length over U+0000..U+2FFFF for which needs_quotes returns False (language derived from its live source)",
             functions=["emitter.IDENTIFIER_PATTERN", "emitter.ANNOTATION_PATTERN", "emitter.EXPRESSION_PATTERN", "emitter.VARIABLE_PATTERN", "lexer.TOKEN_PATTERNS", "lexer._is_valid_identifier_start", "lexer._is_valid_identifier_char"],
         ),
         rx_ob(
